@@ -2181,7 +2181,12 @@ def fault_leg(col, progs, tier, seed):
     cands = [p for p in progs if p.variant != "sync"]
     rng.shuffle(cands)
     cands = cands[: (25 if tier != "thorough" else 250)]
-    exc_types = (_Fault, AssertionError, KeyError, RuntimeError, IndexError)
+    # every Exception subclass counts as "the analysis failed": resource-exhaustion errors and
+    # errors a C helper could raise are included on purpose (the handler must not be narrowed);
+    # StopIteration is left out: inside _parse_exception_table it is the normal end-of-table signal
+    exc_types = (_Fault, AssertionError, KeyError, RuntimeError, IndexError, RecursionError, MemoryError,
+                 ValueError, TypeError, AttributeError, NotImplementedError, OSError,
+                 ZeroDivisionError, LookupError, SystemError, BufferError)
     ll.set_trickery_enabled(True)
     state = {"name": None, "k": 0, "n": {}, "armed": False}
 
@@ -2204,7 +2209,7 @@ def fault_leg(col, progs, tier, seed):
         try:
             with warnings.catch_warnings():
                 warnings.simplefilter("error", ll.InspectionWarning)
-                ll.contexts_active_in_frame(frame, obj, nxt)
+                exact_sig = ctx_sig(ll.contexts_active_in_frame(frame, obj, nxt))
         except BaseException:
             return
         counts = dict(state["n"])
@@ -2251,6 +2256,21 @@ def fault_leg(col, progs, tier, seed):
                                   cur["R"], cur["prog"], suspension_index=idx,
                                   got=[[mgr_label(c.obj) if c.obj is not None else None, c.is_async, c.is_exiting] for c in got],
                                   expected=[[mgr_label(c.obj) if c.obj is not None else None, c.is_async, c.is_exiting] for c in ref])
+                # a contained failure leaves no trace: the same call, unfaulted, is exact again and silent
+                col.evaluations += 1
+                col.count("fault_recovery_checks")
+                try:
+                    with warnings.catch_warnings():
+                        warnings.simplefilter("error", ll.InspectionWarning)
+                        with contextlib.redirect_stderr(err):
+                            again = ctx_sig(ll.contexts_active_in_frame(frame, obj, nxt))
+                except BaseException as ex:
+                    col.violation("after a contained fault in %s call %d the unfaulted call fails/warns: %r" % (name, k, ex),
+                                  cur["R"], cur["prog"], suspension_index=idx)
+                    continue
+                if again != exact_sig:
+                    col.violation("after a contained fault in %s call %d the unfaulted call no longer gives the "
+                                  "exact answer" % (name, k), cur["R"], cur["prog"], suspension_index=idx)
 
     cur = {}
     # bind the real inspect_frame first (the module-level stub replaces itself on first call)
